@@ -120,8 +120,8 @@ def build(tree, mod, vars_):
     raise core.HarnessError("bad tree %r" % (tree,))
 
 
-def apply_trace(trace, mod):
-    vars_ = []
+def apply_trace(trace, mod, vars_=None):
+    vars_ = [] if vars_ is None else vars_
     for call in trace:
         if call[0] == "priv":
             vars_.append(mod.privval(call[1]))
